@@ -237,4 +237,61 @@ PROPS["C09"] = {
     "timeout_quick": 1200, "timeout_thorough": 5400,
 }
 
+_PW_RULE = ("random cases on the REAL eni.Manager over 1-3 REAL eni.Local pools (per-ENI limit 2-4, batch 1-3, IPv4 or dual stack, min/max idle "
+    "watermarks) whose mutex is a Locker of the harness: every lock region of every goroutine (Local.Allocate, reply goroutine, per-request "
+    "worker, factory worker, dispose worker, balancer's Usage/Dispose, sync, Release) is granted in a random order and recorded with the "
+    "Local's full state at its end (addresses with owner/status/primary, raw request queues incl. finished entries, inhibit, ENI status); "
+    "every cloud call (create / assign / unassign / delete) blocks at a gate of the fake cloud until the harness answers it: success, error "
+    "before the effect, error after a partial or the full effect (returning what took effect), with plain / ENI-limit / address-exhausted "
+    "codes. Events per case: 30-70 of pods asking (bursts, repeats pinned like AllocIP does), releasing, callers giving up, balancer runs, "
+    "syncs (also failing), remote removal of addresses, direct Dispose(n), pauses; then a drain with a healthy cloud and a quiescent-point "
+    "comparison. Each recorded region is one protocol line the Lean model replays; the model's slot state must equal the recorded one. "
+    "non-trivial = every case; distinct = distinct line sequence.")
+_PW_TRUST = ["Model/Pool.lean, Proofs/Pool.lean (hand-written model + invariant)",
+    "hooks pkg/eni/zz_verif_export.go (VerifSetLocker, VerifStateLocked, VerifRequestPtr, VerifSetRateLimit, VerifSyncPool, VerifSync)",
+    "the harness's scheduling Locker and the labels it derives from goroutine stacks (function name, creator goroutine)",
+    "fake cloud honouring the factory contract: a call that took effect returns what it created, also together with an error"]
+_PW_ASSUME = ["requests of one pod do not overlap (the daemon's pending-pod guard, C04); a repeat request is pinned to the ENI of the held address (AllocIP's setRequest)",
+    "the cloud hands out addresses an interface does not have yet, at most as many as asked for, and interface ids no slot has",
+    "batch size <= per-ENI limit (for the create-call bound; assign calls are bounded without it)",
+    "secondary ENIs only: trunk / ERDMA interfaces and pre-attached ENIs loaded at start-up (C05) are outside this model",
+    "time: the allocation-inhibit deadline never expires within a case; the factory worker's 300 ms pause is real"]
+
+PROPS["C01"] = {
+    "lean": ["C01"],
+    "required": ["C01.c01_invariant_all_interleavings", "C01.c01_one_owner_per_address", "C01.c01_direct_serves_own_or_free",
+                 "C01.c01_worker_serves_own_or_free", "C01.c01_repeat_served_with_held", "C01.c01_reply_addresses_stay_bound",
+                 "C01.c01_removed_address_not_offered", "C01.c01_deleting_address_not_offered"],
+    "rule": _PW_RULE,
+    "technique": "Lean 4: transition system whose steps are the lock regions of eni.Local, invariant proved by induction over all interleavings and cloud answers; refinement check of every real lock region against the model under a randomised lock scheduler",
+    "level_text": "Theorems for all interleavings of lock regions and all cloud answers: one entry (one owner) per address; a request is served only with the pod's own entry or a valid unowned one; a repeat request gets the held address; addresses of a reply on its way stay bound to its pod; an address seen removed by sync or marked for unassignment is never offered. Exclusivity over time additionally rests on the per-step monitors of the harness (reply ledger). Granularity is the lock region, not the instruction: partial.",
+    "level_note": "Trusted: Lean kernel; the lock-region decomposition (read off the code, validated region by region); fake cloud. Not modelled: trunk/ERDMA/remote resources, Manager's choice among interfaces (any accepting interface is admitted), metrics.",
+    "assumptions": _PW_ASSUME, "trusted_base": _PW_TRUST, "design_ref": "DESIGN.md §4 C01",
+    "timeout_quick": 1200, "timeout_thorough": 7200,
+}
+PROPS["C06"] = {
+    "lean": ["C06"],
+    "required": ["C06.c06_tracked_plus_asked_within_limit", "C06.c06_assign_request_fits", "C06.c06_create_only_without_eni",
+                 "C06.c06_created_goes_to_empty_slot", "C06.c06_marked_is_idle_and_secondary", "C06.c06_unassign_batch",
+                 "C06.c06_dispose_marks_only_idle", "C06.c06_delete_only_unused", "C06.c06_whole_eni_only_unused"],
+    "rule": _PW_RULE + " Every cloud call's arguments are also checked at call time against the fake cloud's state and the harness's reply ledger (quota, batch, in-use, primary).",
+    "technique": "Lean 4: invariant 'tracked + asked-for <= per-ENI limit' and 'marked for unassignment => idle and secondary' proved over all interleavings; plan functions of the factory/dispose workers bounded by theorem; refinement check of every real lock region incl. the arguments of every cloud call",
+    "level_text": "Theorems: in every reachable state tracked plus asked-for addresses fit the per-ENI limit in each family; an assign request fits the free slots and the batch; an interface is created only on a slot without one (at most one per slot); only marked, idle, non-primary addresses are unassigned; shrinking marks only idle addresses; an interface is deleted only in deleting state with nothing held and nothing queued. Trunk and ERDMA interfaces (never disposed) are outside the model: partial.",
+    "level_note": "Trusted: Lean kernel; fake cloud; the balancer's n is recomputed by the driver from the recorded Usage regions.",
+    "assumptions": _PW_ASSUME, "trusted_base": _PW_TRUST, "design_ref": "DESIGN.md §4 C06",
+    "timeout_quick": 1200, "timeout_thorough": 7200,
+}
+PROPS["C07"] = {
+    "lean": ["C07"],
+    "required": ["C07.c07_assigned_addresses_tracked", "C07.c07_created_eni_tracked", "C07.c07_created_addresses_tracked",
+                 "C07.c07_failed_unassign_keeps", "C07.c07_failed_delete_keeps", "C07.c07_unassign_forgets_exactly",
+                 "C07.c07_dispose_worker_retries", "C07.c07_undelivered_reply_unbinds", "C07.c07_release_unbinds", "C07.c07_balance_band"],
+    "rule": _PW_RULE + " At the quiescent end of every case (healthy cloud, after a sync) the pool's Status() is compared with the fake cloud: every cloud address/interface is tracked, every tracked valid address is in the cloud, nothing is left marked for deletion, and no address is owned by a pod that does not hold it.",
+    "technique": "Lean 4 theorems about every result-consuming region (what a cloud call returns is tracked; nothing is forgotten before the cloud confirmed) and the balancer arithmetic; refinement check of every real lock region plus quiescent-point comparison of pool and fake cloud under injected faults",
+    "level_text": "Theorems: addresses returned by an assign call are tracked whether it reported success (usable) or an error (to hand back); an interface returned with an error is kept in deleting state; failed unassign/delete calls keep what they were about, confirmed ones forget exactly that; the dispose worker only rests when nothing is marked; an undelivered reply un-binds what the request bound; the balancer's surplus/deficit lead exactly to the band. 'Eventually returns to the band' is a liveness statement checked at the quiescent end of each case, not proved: partial.",
+    "level_note": "Trusted: Lean kernel; fake cloud honouring the factory contract (an effect is reported back with the error); quiescence detection of the harness (no lock waiter, no gated call, no event for 450 ms).",
+    "assumptions": _PW_ASSUME, "trusted_base": _PW_TRUST, "design_ref": "DESIGN.md §4 C07",
+    "timeout_quick": 1200, "timeout_thorough": 7200,
+}
+
 NOT_APPLICABLE = {}
